@@ -29,6 +29,7 @@ type Env struct {
 
 // qfact is a universally quantified integer-range fact kept for engine-side instantiation.
 type qfact struct {
+	sort   string
 	lo, hi *Term
 	inst   func(idx *Term) *Term
 }
@@ -506,6 +507,9 @@ func (e *Env) eval(x ast.Expr) (Val, error) {
 		switch u := e.v.substT(b.Ty).Underlying().(type) {
 		case *types.Slice:
 			a := pElem(slBase(b.T), tAdd(slOff(b.T), i.T))
+			if !mentionsBound(i.T) {
+				e.v.instantiateAt(e.st, i.T)
+			}
 			return Val{e.v.load(e.st, a, u.Elem()), u.Elem()}, nil
 		case *types.Map:
 			dom, val := e.v.mapHeaps(e.st, u)
@@ -889,7 +893,7 @@ func (e *Env) evalCall(c *ast.CallExpr) (Val, error) {
 				bodyX := c.Args[3]
 				varName := id.Name
 				loT, hiT := lo.T, hi.T
-				e.st.qfacts = append(e.st.qfacts, qfact{lo: loT, hi: hiT, inst: func(idx *Term) *Term {
+				e.st.qfacts = append(e.st.qfacts, qfact{sort: "Int", lo: loT, hi: hiT, inst: func(idx *Term) *Term {
 					b2 := base.child()
 					b2.vars[varName] = Val{idx, intT}
 					body, err := b2.evalBool(bodyX)
@@ -916,6 +920,14 @@ func (e *Env) evalCall(c *ast.CallExpr) (Val, error) {
 			var qty types.Type
 			if sid, ok := c.Args[1].(*ast.Ident); ok && isSpecSort(sid.Name) {
 				sortName = sid.Name
+				switch sortName {
+				case "String":
+					qty = types.Typ[types.String]
+				case "Int":
+					qty = types.Typ[types.Int]
+				case "Bool":
+					qty = types.Typ[types.Bool]
+				}
 			} else {
 				ty, err := e.resolveType(c.Args[1])
 				if err != nil {
@@ -925,6 +937,44 @@ func (e *Env) evalCall(c *ast.CallExpr) (Val, error) {
 				sortName = e.v.sortOf(ty)
 			}
 			q := mk(sortName, qv)
+			if name == "forall" && e.mode == 2 {
+				sk := e.v.Y.fresh(e.v.D, "sk_"+id.Name, sortName)
+				for _, qf := range e.st.qfacts {
+					if qf.sort == sortName {
+						e.st.assume(qf.inst(sk))
+					}
+				}
+				c2.vars[id.Name] = Val{sk, qty}
+				c2.mode = 0
+				body, err := c2.evalBool(c.Args[2])
+				if err != nil {
+					return Val{}, err
+				}
+				return Val{body, boolT}, nil
+			}
+			if name == "forall" && e.mode == 1 {
+				snap := e.st.snapshot()
+				base := e.child()
+				base.st = snap
+				base.mode = 0
+				bodyX := c.Args[2]
+				varName := id.Name
+				e.st.qfacts = append(e.st.qfacts, qfact{sort: sortName, inst: func(idx *Term) *Term {
+					b2 := base.child()
+					b2.vars[varName] = Val{idx, qty}
+					body, err := b2.evalBool(bodyX)
+					if err != nil {
+						return tTrue
+					}
+					return body
+				}})
+				if sortName == "String" {
+					// quantifiers over strings make the solvers diverge: the fact is used only through the
+					// engine's own instantiation (at map-range keys, lookups and skolem constants)
+					return Val{tTrue, boolT}, nil
+				}
+			}
+			c2.mode = 0
 			c2.vars[id.Name] = Val{q, qty}
 			body, err := c2.evalBool(c.Args[2])
 			if err != nil {
@@ -933,6 +983,21 @@ func (e *Env) evalCall(c *ast.CallExpr) (Val, error) {
 			return Val{mk("Bool", name+" (("+qv+" "+sortName+"))", body), boolT}, nil
 		}
 		return Val{}, fmt.Errorf("%s: bad arity", name)
+	case "arrbase":
+		a, err := e.eval(c.Args[0])
+		if err != nil {
+			return Val{}, err
+		}
+		if a.T.Sort != "Slice" {
+			return Val{}, fmt.Errorf("arrbase() needs a slice")
+		}
+		return Val{slBase(a.T), nil}, nil
+	case "fromcode":
+		a, err := e.eval(c.Args[0])
+		if err != nil {
+			return Val{}, err
+		}
+		return Val{mk("String", "str.from_code", a.T), types.Typ[types.String]}, nil
 	case "strlen":
 		a, err := e.eval(c.Args[0])
 		if err != nil {
@@ -1228,11 +1293,8 @@ func (e *Env) evalLocs(x ast.Expr) ([]modLoc, error) {
 						}
 					}
 				}
-				pt := p.T
-				if pt.Sort == "Iface" {
-					pt = mk("Ptr", e.v.D.unboxFn("Ptr"), pt)
-				}
-				return []modLoc{{kind: "under", base: pt}}, nil
+				// unknown pointee: any user data may be rewritten (zog's own objects are not user data)
+				return []modLoc{{kind: "userdata"}}, nil
 			case "under":
 				p, err := e.eval(c.Args[0])
 				if err != nil {
